@@ -89,7 +89,7 @@ def attr (css : Bool) (el : Bytes) : Attr → Env → St → St
         (match peek env e with
          | some (.classes c) => st.write (Html.escape c)
          | _ => st.stick)
-      else if (el == aName && name == hrefName) || (el == formName && name == actionName) then writeEscaped env e st
+      else if (Sem.eqFold el aName && Sem.eqFold name hrefName) || (Sem.eqFold el formName && Sem.eqFold name actionName) then writeEscaped env e st
       else if isScriptAttr name then
         (match eval env e st with
          | (some (.script _ _ call), st) => st.write call
